@@ -116,7 +116,10 @@ def valid_task(task):
     try:
         with contextlib.redirect_stdout(io.StringIO()):
             code = build_code(cls, size, dn, ax)
-            em = PauliErrorModel(*direction, deformation_name=dn, deformation_kwargs=({'deformation_axis': ax} if ax else {}))
+            ndef = opts.pop('__noise_deformation__', None)      # noise deformed, code not
+            if ndef:
+                rec['noise_deformation'] = ndef
+            em = PauliErrorModel(*direction, deformation_name=(ndef or dn), deformation_kwargs=({'deformation_axis': ax} if ax else {}))
             dec = make_decoder(decname, code, em, p, **opts)
     except Exception as ex:
         rec['construct_error'] = '%s: %s' % (type(ex).__name__, ex)
@@ -192,6 +195,9 @@ def main():
                         # noise deformation on an undeformed code (matching weights per qubit)
                         if dn is None and klass.deformation_names and decname in ('MatchingDecoder', 'SweepMatchDecoder', 'RotatedSweepMatchDecoder'):
                             tasks.append((decname, cls, size, None, None, (0.1, 0.1, 0.8), 0.1, tier, seed, outdir))
+                            # infinitely biased noise, deformed: both sectors are excited although the stated direction is pure
+                            tasks.append((decname + '|{"__noise_deformation__": "%s"}' % klass.deformation_names[0], cls, size, None, None,
+                                          rng.choice([(0.0, 0.0, 1.0), (1.0, 0.0, 0.0)]), 0.1, tier, seed, outdir))
         with Pool(16) as pool:
             res = pool.map(valid_task, tasks, chunksize=2)
         json.dump(res, open(os.path.join(outdir, 'valid.json'), 'w'))
@@ -230,11 +236,12 @@ def main():
                ('Planar2DCode', (3, 2)), ('Planar2DCode', (3, 3)), ('RotatedPlanar2DCode', (2, 2)), ('RotatedPlanar2DCode', (2, 3)),
                ('RotatedPlanar2DCode', (3, 3)), ('RotatedPlanar2DCode', (3, 4)), ('RotatedPlanar2DCode', (4, 3))]
         noises = [((1 / 3, 1 / 3, 1 / 3), None, None), ((0.05, 0.05, 0.9), 'XZZX', None), ((0.05, 0.05, 0.9), 'XZZX', 'x'), ((0.05, 0.45, 0.5), 'XZZX', 'x'),
-                  ((0.125, 0.5, 0.375), 'XY', None), ((0.5, 0.0, 0.5), None, None), ((0.1, 0.3, 0.6), 'XZZX', 'y')]
+                  ((0.125, 0.5, 0.375), 'XY', None), ((0.5, 0.0, 0.5), None, None), ((0.1, 0.3, 0.6), 'XZZX', 'y'),
+                  ((0.0, 0.0, 1.0), 'XZZX', None), ((1.0, 0.0, 0.0), 'XZZX', 'x')]
         tasks = []
         for cls, size in lat:
             # all noise settings of one lattice run sequentially in ONE process at the same rate (decoders built one after the other)
-            sel = noises if tier == 'thorough' else [noises[1], noises[2]] + rng.sample([noises[0]] + noises[3:], 2)
+            sel = noises if tier == 'thorough' else [noises[1], noises[2], noises[7 + rng.randrange(2)]] + rng.sample([noises[0]] + noises[3:7], 2)
             for p in ((0.05, 0.2, 0.4) if tier == 'thorough' else (rng.choice([0.05, 0.2, 0.4]),)):
                 tasks.append((cls, size, sel, p, tier, seed, outdir))
         # high rate, marginals still below 1/2 (depolarising: 2p/3 < 1/2 up to p = 0.75)
